@@ -32,6 +32,11 @@ SHAPES = [
     "x% = 5\nDO UNTIL x%\nPRINT x%\nLOOP\n",
     "ON ERROR GOTO h\nPRINT 1 \\ 0\nPRINT 2\nEND\nh: RESUME NEXT\n",
     "ON ERROR RESUME NEXT\nx% = 32767 + 1\nPRINT 2\n",
+    # characters inside literals and DATA items that a source pre-processing step could touch
+    "PRINT \"a\tb\"; LEN(\"a\tb\")\nREAD x$, y$\nPRINT x$; LEN(x$); y$; LEN(y$)\nDATA \"p\tq\", r\ts\n",
+    "x$ = \"  lead\": y$ = \"trail  \": z$ = \"a  b\"\nPRINT x$; y$; z$; LEN(x$ + y$ + z$)\nDATA \"  q  \",  r  r  ,\nREAD a$, b$, c$\nPRINT a$; b$; c$; LEN(a$); LEN(b$)\n",
+    "PRINT \"REM not a comment ' nor this\": PRINT \"a:b\" ' real comment \"x\"\nPRINT \"\x0c\x0b\x1c|\r|\u00e9\u00c7\"; LEN(\"\x0c\r\")\n",
+    "\tPRINT \"indented with a tab\"\nIF 1 THEN\tPRINT\t\"tabs\tbetween tokens\"\nDATA\ta\tb,\tc\nREAD p$, q$\nPRINT p$; LEN(p$); q$\n",
 ]
 
 
